@@ -99,7 +99,7 @@ func c09GroupNIST(t *testing.T, unit string, g group.Group, c *wcurve.Curve) {
 				return res
 			}})
 	}
-	r.RequireCounter("in:prefix", 255+3*256*2-20)
+	r.RequireCounter("in:prefix", 1700)
 	r.RequireCounter("in:flip", int64(4*8*(3*c.ByteLen+2)-16))
 	r.RequireCounter("in:alias", 6)
 	r.RequireCounter("in:field-overflow", 32+64)
